@@ -402,6 +402,19 @@ func (x *Evaluator) evalKnown(callee *ssa.Function, call *ssa.Call, idx int, e *
 			data = hs[0].Origin
 		}
 		return BoolV{Desc: "HasPrefix(" + t.String() + "," + p + ")", Data: data}, true
+	case "strings.HasSuffix":
+		t := asTmpl(x.evalC(args[0], e, c))
+		p, ok := litOnly(asTmpl(x.evalC(args[1], e, c)))
+		if ok && len(p) == 1 {
+			if ch, known := t.lastChar(); known {
+				return boolConst(ch == p[0]), true
+			}
+		}
+		data := "?"
+		if hs := t.Holes(); len(hs) > 0 {
+			data = hs[len(hs)-1].Origin
+		}
+		return BoolV{Desc: "HasSuffix(" + t.String() + "," + p + ")", Data: data}, true
 	case "strings.Split":
 		t := asTmpl(x.evalC(args[0], e, c))
 		data := "?"
